@@ -16,7 +16,7 @@ type c16U struct {
 
 // c16Value: the value to bind (forks on the kind; contents symbolic)
 func c16Value() (any, int) {
-	k := vChoice("valueKind", 8)
+	k := vChoice("valueKind", 9)
 	switch k {
 	case 0:
 		return map[string]any{"A": vNondet[int]("v.a"), "B": "x"}, k
@@ -32,9 +32,12 @@ func c16Value() (any, int) {
 		return make(chan int), k // not marshalable
 	case 6:
 		return []any{vNondet[int]("v.e")}, k
-	default:
+	case 7:
 		// generic containers holding nil containers: nil-ness is part of the value
 		return map[string]any{"id": vNondet[int]("v.a"), "tags": []any(nil), "meta": map[string]any(nil)}, k
+	default:
+		// the library's own Result type as the value: a struct value like any other
+		return NewResult(c16T{A: vNondet[int]("v.a")}), k
 	}
 }
 
@@ -87,8 +90,12 @@ func c16Do(shape int, v any, vk int, bind func(dest any) error, ref bool) c16Out
 			var d []any
 			err := call(&d)
 			return c16Outcome{err != nil, d}
-		default:
+		case 7:
 			var d map[string]any
+			err := call(&d)
+			return c16Outcome{err != nil, d}
+		default:
+			var d Result
 			err := call(&d)
 			return c16Outcome{err != nil, d}
 		}
@@ -190,6 +197,9 @@ func VH_C16_result() {
 	}
 	if vk == 7 {
 		vCover("value-with-nil-containers")
+	}
+	if vk == 8 {
+		vCover("value-of-type-Result")
 	}
 }
 
